@@ -2,7 +2,7 @@ import Polyseed.Lemmas.TreeCheck
 /-!
 # Kernel-evaluated facts about one word table, and what follows from them
 
-`tableCheck sgn L` is a `Bool` the kernel evaluates on the regenerated table (`decide +kernel`):
+`tableCheck L` is a `Bool` the kernel evaluates on the regenerated table (`decide +kernel`):
 2048 words, every byte in 1..255 and not a space, no empty word, and every word is found at its own
 index by the library's search (bsearch decision tree for sorted lists; first-match + distinctness for
 unsorted ones).  `TableOK` is the propositional form the property theorems use.
@@ -19,36 +19,50 @@ def wordCode (w : List Nat) : Option Nat :=
   | [a, b, c] => some (a * 65536 + b * 256 + c)
   | _ => none
 
-/-- fold: `none` as soon as a code repeats or a word has no code -/
-def distinctCodes : List (List Nat) → Nat → Bool
+/-- fold over a bitmap: `false` as soon as a code repeats or a word has no code -/
+def distinctCodes (code : List Nat → Option Nat) : List (List Nat) → Nat → Bool
   | [], _ => true
   | w :: ws, seen =>
-    match wordCode w with
+    match code w with
     | none => false
-    | some c => if seen.testBit c then false else distinctCodes ws (seen ||| (1 <<< c))
+    | some c => if seen.testBit c then false else distinctCodes code ws (seen ||| (1 <<< c))
 
-def linearFindsAll (sgn : Bool) (L : Lang) : Bool :=
-  distinctCodes L.words.toList 0
+def linearFindsAll (L : Lang) : Bool :=
+  distinctCodes wordCode L.words.toList 0
 
-def tableCheck (sgn : Bool) (L : Lang) : Bool :=
+/-- the first four accent-stripped letters of a word as a number in base 27 (a..z = 1..26, 0 = no letter):
+bytes >= 128 (combining accents in the decomposed lists) are skipped; any other byte has no code. -/
+def prefixCodeAux : Nat → List Nat → Nat → Option Nat
+  | 0, _, acc => some acc
+  | n + 1, [], acc => prefixCodeAux n [] (acc * 27)
+  | n + 1, b :: bs, acc =>
+    if 128 ≤ b then prefixCodeAux (n + 1) bs acc
+    else if 97 ≤ b ∧ b ≤ 122 then prefixCodeAux n bs (acc * 27 + (b - 96))
+    else none
+termination_by n l _ => n + l.length
+
+def prefixCode (w : List Nat) : Option Nat := prefixCodeAux 4 w 0
+
+/-- for the languages that allow abbreviation: no two words share their first four accent-stripped letters -/
+def prefixCheck (L : Lang) : Bool := !L.hasPrefix || distinctCodes prefixCode L.words.toList 0
+
+def tableCheck (L : Lang) : Bool :=
   Nat.beq L.words.size 2048 && L.words.toList.all wordBytesOk &&
-    (if L.isSorted then treeOk (getComparer sgn L) (L.words.size + 1) L.words.toList
-     else (!L.hasPrefix && !L.hasAccents) && linearFindsAll sgn L)
+    (if L.isSorted then treeOk (getComparer L) (L.words.size + 1) L.words.toList
+     else (!L.hasPrefix && !L.hasAccents) && linearFindsAll L)
 
-structure TableOK (sgn : Bool) (L : Lang) : Prop where
+structure TableOK (L : Lang) : Prop where
   size : L.words.size = 2048
   bytes : ∀ w ∈ L.words.toList, w ≠ [] ∧ ∀ b ∈ w, 0 < b ∧ b < 256 ∧ b ≠ 32
-  finds : ∀ i (hi : i < L.words.size), findWord sgn L L.words[i] = some i
+  finds : ∀ i (hi : i < L.words.size), findWord L L.words[i] = some i
 
 /-! ### first-match search on a duplicate-free list -/
 
-theorem sc_inj (sgn : Bool) (a b : Nat) (ha : a < 256) (hb : b < 256) (h : sc sgn a = sc sgn b) : a = b := by
+theorem sc_inj (a b : Nat) (ha : a < 256) (hb : b < 256) (h : sc a = sc b) : a = b := by
   unfold sc at h
-  cases sgn <;> simp at h
-  · omega
-  · split at h <;> split at h <;> omega
+  split at h <;> split at h <;> omega
 
-theorem sgnCmp_eq_zero (sgn : Bool) (a b : Nat) (ha : a < 256) (hb : b < 256) : sgnCmp sgn a b = 0 ↔ a = b := by
+theorem sgnCmp_eq_zero (a b : Nat) (ha : a < 256) (hb : b < 256) : sgnCmp a b = 0 ↔ a = b := by
   unfold sgnCmp
   constructor
   · intro h
@@ -56,13 +70,13 @@ theorem sgnCmp_eq_zero (sgn : Bool) (a b : Nat) (ha : a < 256) (hb : b < 256) : 
     · omega
     · split at h
       · omega
-      · exact sc_inj sgn a b ha hb (by omega)
+      · exact sc_inj a b ha hb (by omega)
   · rintro rfl; simp
 
 def BytesOK (w : List Nat) : Prop := ∀ b ∈ w, 0 < b ∧ b < 256
 
 /-- `compare_str` returns 0 exactly for equal strings (NUL-free byte strings). -/
-theorem cmpStr_eq_zero (sgn : Bool) : ∀ (a b : List Nat), BytesOK a → BytesOK b → (cmpStr sgn a b = 0 ↔ a = b) := by
+theorem cmpStr_eq_zero : ∀ (a b : List Nat), BytesOK a → BytesOK b → (cmpStr a b = 0 ↔ a = b) := by
   intro a
   induction a with
   | nil =>
@@ -71,7 +85,7 @@ theorem cmpStr_eq_zero (sgn : Bool) : ∀ (a b : List Nat), BytesOK a → BytesO
     | nil => simp [cmpStr, hd, sgnCmp]
     | cons e es =>
       have he := hb e (by simp)
-      simp only [cmpStr, hd, List.headD_cons, sgnCmp_eq_zero sgn 0 e (by omega) he.2]
+      simp only [cmpStr, hd, List.headD_cons, sgnCmp_eq_zero 0 e (by omega) he.2]
       constructor
       · intro h; omega
       · intro h; cases h
@@ -80,7 +94,7 @@ theorem cmpStr_eq_zero (sgn : Bool) : ∀ (a b : List Nat), BytesOK a → BytesO
     have hk := ha k (by simp)
     cases b with
     | nil =>
-      simp only [cmpStr, sgnCmp_eq_zero sgn k 0 hk.2 (by omega)]
+      simp only [cmpStr, sgnCmp_eq_zero k 0 hk.2 (by omega)]
       constructor
       · intro h; omega
       · intro h; cases h
@@ -92,7 +106,7 @@ theorem cmpStr_eq_zero (sgn : Bool) : ∀ (a b : List Nat), BytesOK a → BytesO
         simp only [↓reduceIte, List.cons.injEq, true_and]
         exact ih es (fun x hx => ha x (by simp [hx])) (fun x hx => hb x (by simp [hx]))
       · simp only [hke, ↓reduceIte, List.cons.injEq, false_and, iff_false]
-        rw [sgnCmp_eq_zero sgn k e hk.2 he.2]; exact hke
+        rw [sgnCmp_eq_zero k e hk.2 he.2]; exact hke
 
 theorem linearSearch_first (c : List Nat → Int) (ws : List (List Nat)) (j0 i : Nat) (hi : i < ws.length)
     (hz : c ws[i] = 0) (hfirst : ∀ j (hj : j < i), c (ws[j]'(by omega)) ≠ 0) :
@@ -130,7 +144,7 @@ theorem blt_true {a b : Nat} (h : Nat.blt a b = true) : a < b := by
 theorem testBit_or_shift (seen c d : Nat) : (seen ||| (1 <<< c)).testBit d = (seen.testBit d || decide (c = d)) := by
   rw [Nat.testBit_or, Nat.one_shiftLeft, Nat.testBit_two_pow]
 
-theorem distinctCodes_sound : ∀ (ws : List (List Nat)) (seen : Nat), distinctCodes ws seen = true →
+theorem distinctCodes_sound (wordCode : List Nat → Option Nat) : ∀ (ws : List (List Nat)) (seen : Nat), distinctCodes wordCode ws seen = true →
     (∀ w ∈ ws, ∃ c, wordCode w = some c ∧ seen.testBit c = false) ∧
     ws.Pairwise (fun a b => ∀ ca cb, wordCode a = some ca → wordCode b = some cb → ca ≠ cb) := by
   intro ws
@@ -165,7 +179,7 @@ theorem distinctCodes_sound : ∀ (ws : List (List Nat)) (seen : Nat), distinctC
           simp only [Bool.or_eq_false_iff, decide_eq_false_iff_not] at ht
           exact ht.2
 
-theorem tableOK_of_check (sgn : Bool) (L : Lang) (h : tableCheck sgn L = true) : TableOK sgn L := by
+theorem tableOK_of_check (L : Lang) (h : tableCheck L = true) : TableOK L := by
   unfold tableCheck at h
   simp only [Bool.and_eq_true, List.all_eq_true] at h
   obtain ⟨⟨hsize', hbytes⟩, hfind⟩ := h
@@ -184,17 +198,17 @@ theorem tableOK_of_check (sgn : Bool) (L : Lang) (h : tableCheck sgn L = true) :
   · -- unsorted: first match on a duplicate-free list with the exact comparator
     simp only [hs, Bool.false_eq_true, ↓reduceIte, Bool.and_eq_true, Bool.not_eq_true'] at hfind ⊢
     obtain ⟨⟨hp, ha⟩, hd⟩ := hfind
-    have hcmp : getComparer sgn L = cmpStr sgn := by simp [getComparer, hp, ha]
+    have hcmp : getComparer L = cmpStr := by simp [getComparer, hp, ha]
     rw [hcmp]
-    obtain ⟨hcodes, hpw⟩ := distinctCodes_sound _ _ hd
+    obtain ⟨hcodes, hpw⟩ := distinctCodes_sound wordCode _ _ hd
     have hbo : ∀ j (hj : j < L.words.toList.length), BytesOK L.words.toList[j] := fun j hj b hb' =>
       let ⟨_, h2⟩ := hb _ (List.getElem_mem hj); ⟨(h2 b hb').1, (h2 b hb').2.1⟩
     have hil : i < L.words.toList.length := by simpa using hi
-    have := linearSearch_first (cmpStr sgn L.words[i]) L.words.toList 0 i hil
-      (by rw [cmpStr_eq_zero sgn _ _ (by simpa using hbo i hil) (hbo i hil)]; simp)
+    have := linearSearch_first (cmpStr L.words[i]) L.words.toList 0 i hil
+      (by rw [cmpStr_eq_zero _ _ (by simpa using hbo i hil) (hbo i hil)]; simp)
       (fun j hj hz => by
         have hjl : j < L.words.toList.length := by omega
-        rw [cmpStr_eq_zero sgn _ _ (by simpa using hbo i hil) (hbo j hjl)] at hz
+        rw [cmpStr_eq_zero _ _ (by simpa using hbo i hil) (hbo j hjl)] at hz
         have hrel := List.pairwise_iff_getElem.mp hpw j i hjl hil hj
         obtain ⟨cj, hcj, _⟩ := hcodes _ (List.getElem_mem hjl)
         obtain ⟨ci, hci, _⟩ := hcodes _ (List.getElem_mem hil)
@@ -205,11 +219,24 @@ theorem tableOK_of_check (sgn : Bool) (L : Lang) (h : tableCheck sgn L = true) :
         exact hne hcj.symm)
     simpa using this
   · simp only [hs, ↓reduceIte] at hfind ⊢
-    exact bsearch_finds_all (getComparer sgn L) L.words (by simpa using hfind) i hi
+    exact bsearch_finds_all (getComparer L) L.words (by simpa using hfind) i hi
 
 end Polyseed
 
 namespace Polyseed
+
+/-- what `prefixCheck` establishes: pairwise different 4-letter prefix codes -/
+theorem prefix_distinct (L : Lang) (hp : L.hasPrefix = true) (h : prefixCheck L = true) (i j : Nat)
+    (hi : i < L.words.size) (hj : j < L.words.size) (hij : i < j) :
+    ∃ ci cj, prefixCode L.words[i] = some ci ∧ prefixCode L.words[j] = some cj ∧ ci ≠ cj := by
+  simp only [prefixCheck, hp, Bool.not_true, Bool.false_or] at h
+  obtain ⟨hcodes, hpw⟩ := distinctCodes_sound prefixCode _ _ h
+  have hil : i < L.words.toList.length := by simpa using hi
+  have hjl : j < L.words.toList.length := by simpa using hj
+  obtain ⟨ci, hci, _⟩ := hcodes _ (List.getElem_mem hil)
+  obtain ⟨cj, hcj, _⟩ := hcodes _ (List.getElem_mem hjl)
+  have := List.pairwise_iff_getElem.mp hpw i j hil hjl hij ci cj hci hcj
+  exact ⟨ci, cj, by simpa using hci, by simpa using hcj, this⟩
 
 /-- longest word of the table, in bytes (the decomposed form the library handles internally) -/
 def maxWordLen (L : Lang) : Nat := L.words.toList.foldl (fun m w => Nat.max m w.length) 0
